@@ -265,6 +265,11 @@ def classify(case):
     v = case.verdict or ""
     if case.op != "c17" or not v.startswith("fail:"):
         return None
+    # the recorded findings are properties of the search AS IT IS WRITTEN (Brent's stop rule, the unchecked bracket):
+    # they are recognised only when the faithful model of that search reproduces the implementation's matrices.
+    # A non-maximiser that the model does not predict has another cause and is reported.
+    if (case.model or "") != (case.impl or ""):
+        return None
     ids = set()
     for cl in v[5:].split("+"):
         fid = KNOWN_BY_CLAUSE.get(cl)
